@@ -116,7 +116,7 @@ def norm_lit(test: ast.AST, pol: bool) -> str:
     return "not (" + txt + ")"
 
 
-TRIVIAL_CALLS = {"getattr", "str", "isinstance", "hasattr", "bool", "len", "int", "float", "type", "list", "dict", "tuple"}
+TRIVIAL_CALLS = {"getattr", "str", "isinstance", "hasattr", "bool", "len", "int", "float", "type", "list", "dict", "tuple", "frozenset", "set"}
 
 
 def is_trivial_alias(node: ast.AST) -> bool:
@@ -603,6 +603,11 @@ class PathAnalysis(flow.Analysis):
         if isinstance(test, ast.NamedExpr):
             state = self.assign_target(state, test.target, test.value, test)
             test = test.target
+        if isinstance(test, ast.Name):
+            # a flag bound to a conjunction/negation (`ok = a and b` … `if ok:`) is read through its definition
+            sv = subst(test, state)
+            if isinstance(sv, ast.BoolOp) or (isinstance(sv, ast.UnaryOp) and isinstance(sv.op, ast.Not)):
+                return self.cond(state, sv, pol)
         lit = norm_lit(subst(test, state), pol)
         k = _closed_truth(lit)
         if k is False:
